@@ -50,7 +50,8 @@ type ErrVal struct {
 	ID     string // root identity for registered/new errors
 	Parent Value  // wrapped error (IfaceVal) or nil
 }
-type TimeVal struct{ Ns *T } // unix nanoseconds as signed BV64
+// TimeVal: unix seconds (signed BV64) and nanoseconds within the second (BV64 in [0, 1e9)).
+type TimeVal struct{ Sec, Nsec *T }
 type IntVal struct {         // sdkmath.Int / big.Int mathematical integer
 	V   *T // Int sort
 	Nil bool
@@ -134,7 +135,7 @@ func opaqueKind(t types.Type) string {
 func (e *Engine) zero(t types.Type) Value {
 	switch opaqueKind(t) {
 	case "time":
-		return &TimeVal{Ns: BVConst(0, 64)}
+		return &TimeVal{Sec: BVConst(0, 64), Nsec: BVConst(0, 64)}
 	case "sdkint":
 		return &IntVal{V: IntConst(0), Nil: true}
 	case "ctx":
